@@ -324,7 +324,8 @@ func (c *Case) Run(o RunOpts) *RunResult {
 		return res
 	}
 	done := make(chan error, 1)
-	go func() { done <- cmd.Wait() }()
+	finished := make(chan struct{}) // closed once the process has been waited for (never consumed)
+	go func() { done <- cmd.Wait(); close(finished) }()
 	timeout := o.Timeout
 	if timeout == 0 {
 		timeout = 120 * time.Second
@@ -336,7 +337,7 @@ func (c *Case) Run(o RunOpts) *RunResult {
 			for {
 				time.Sleep(3 * time.Second)
 				select {
-				case <-done:
+				case <-finished:
 					return
 				default:
 				}
